@@ -31,6 +31,8 @@ def leaf_pairs(a, o, mapping, out):
 
 
 def name_event(e, good_pairs):
+    if any(n not in e.get("rust_lens", []) for n in e.get("fixed_lens", [])):
+        return "array-length"          # Trace_C05!LengthsOk
     a = typecases.abs_tree(e["rust"])
     o = e["ty"]
     if e["lang"] != "typescript":
